@@ -56,11 +56,39 @@ def _pmul(a, b):
     out = {}
     for m1, c1 in a.items():
         for m2, c2 in b.items():
-            m = tuple(sorted(m1 + m2, key=repr))
-            out[m] = out.get(m, 0) + c1 * c2
+            atoms = m1 + m2
+            c = c1 * c2
+            # powers of two with symbolic exponents multiply by adding exponents: (1 << a) * (1 << b) = 1 << (a + b)
+            pw = [x for x in atoms if isinstance(x, tuple) and x and x[0] == "pow2"]
+            if len(pw) > 1 or (pw and False):
+                e = {}
+                for x in pw:
+                    e = _padd(e, dict(x[1]))
+                atoms = tuple(x for x in atoms if not (isinstance(x, tuple) and x and x[0] == "pow2"))
+                k0 = e.pop((), 0)
+                if k0:
+                    c *= (1 << k0) if 0 <= k0 < 128 else 1
+                    if not 0 <= k0 < 128:
+                        e[()] = k0
+                if e:
+                    atoms = atoms + (("pow2", tuple(sorted(e.items(), key=repr))),)
+            m = tuple(sorted(atoms, key=repr))
+            out[m] = out.get(m, 0) + c
             if out[m] == 0:
                 del out[m]
     return out
+
+
+def _pow2(e):
+    """the polynomial 2^e for an exponent polynomial e (constant part folded into the coefficient)"""
+    e = dict(e)
+    k0 = e.pop((), 0)
+    if not 0 <= k0 < 128:
+        e[()] = k0
+        k0 = 0
+    if not e:
+        return {(): 1 << k0}
+    return {(("pow2", tuple(sorted(e.items(), key=repr))),): 1 << k0}
 
 
 def _freeze(p):
@@ -90,6 +118,8 @@ def _pdict(t):
             r = _pdict(t[3])
             if list(r.keys()) in ([()], []) and 0 <= r.get((), 0) < 64:
                 return _pmul(_pdict(t[2]), {(): 1 << r.get((), 0)})
+            # x << e with a symbolic exponent: x * 2^e (as mathematics; overflow / over-long shifts are the panic rules' business)
+            return _pmul(_pdict(t[2]), _pow2(r))
     if k == "call" and t[1]:
         for n, op in ARITH_CALLS.items():
             if path_matches(t[1], n) and len(t[2]) == 2:
@@ -118,10 +148,12 @@ def key(t):
     if k == "var":
         return ("var", t[1])
     if k == "place":
-        proj = tuple(t[2])
+        # one memory location, one key: nested places flattened, references / derefs dropped (`(*(&self.info)).x` is `self.info.x`)
+        from .mir import flat_place
+        base, proj = flat_place(t)
+        proj = tuple(proj)
         while proj and proj[-1] == "0":
             proj = proj[:-1]
-        base = t[1]
         if not proj:
             return nkey(base)
         return ("place", nkey(base), proj)
